@@ -153,6 +153,43 @@ static void case_traj(Tape &t, Ctx &cx, unsigned m)
     if (m == 2) { a_trajpoly3_gen(&c3, T, d0[0], d1[0], d0[1], d1[1]); cc = c3.c; }
     else if (m == 3) { a_trajpoly5_gen(&c5, T, d0[0], d1[0], d0[1], d1[1], d0[2], d1[2]); cc = c5.c; }
     else { a_trajpoly7_gen(&c7, T, d0[0], d1[0], d0[1], d1[1], d0[2], d1[2], d0[3], d1[3]); cc = c7.c; }
+    // the member functions the headers give these structures in C++ are part of the interface: same arguments, same object
+    {
+        a_trajpoly3 w3;
+        a_trajpoly5 w5;
+        a_trajpoly7 w7;
+        double xq = T / 3, *wc;
+        double g[4] = {0, 0, 0, 0}, h[4] = {0, 0, 0, 0}, gb[4][8], hb[4][8];
+        memset(gb, 0, sizeof(gb));
+        memset(hb, 0, sizeof(hb));
+        if (m == 2)
+        {
+            w3.gen(T, d0[0], d1[0], d0[1], d1[1]); wc = w3.c;
+            g[0] = w3.pos(xq); g[1] = w3.vel(xq); g[2] = w3.acc(xq);
+            h[0] = a_trajpoly3_pos(&c3, xq); h[1] = a_trajpoly3_vel(&c3, xq); h[2] = a_trajpoly3_acc(&c3, xq);
+            w3.c0(gb[0]); w3.c1(gb[1]); w3.c2(gb[2]);
+            a_trajpoly3_c0(&c3, hb[0]); a_trajpoly3_c1(&c3, hb[1]); a_trajpoly3_c2(&c3, hb[2]);
+        }
+        else if (m == 3)
+        {
+            w5.gen(T, d0[0], d1[0], d0[1], d1[1], d0[2], d1[2]); wc = w5.c;
+            g[0] = w5.pos(xq); g[1] = w5.vel(xq); g[2] = w5.acc(xq);
+            h[0] = a_trajpoly5_pos(&c5, xq); h[1] = a_trajpoly5_vel(&c5, xq); h[2] = a_trajpoly5_acc(&c5, xq);
+            w5.c0(gb[0]); w5.c1(gb[1]); w5.c2(gb[2]);
+            a_trajpoly5_c0(&c5, hb[0]); a_trajpoly5_c1(&c5, hb[1]); a_trajpoly5_c2(&c5, hb[2]);
+        }
+        else
+        {
+            w7.gen(T, d0[0], d1[0], d0[1], d1[1], d0[2], d1[2], d0[3], d1[3]); wc = w7.c;
+            g[0] = w7.pos(xq); g[1] = w7.vel(xq); g[2] = w7.acc(xq); g[3] = w7.jer(xq);
+            h[0] = a_trajpoly7_pos(&c7, xq); h[1] = a_trajpoly7_vel(&c7, xq); h[2] = a_trajpoly7_acc(&c7, xq); h[3] = a_trajpoly7_jer(&c7, xq);
+            w7.c0(gb[0]); w7.c1(gb[1]); w7.c2(gb[2]); w7.c3(gb[3]);
+            a_trajpoly7_c0(&c7, hb[0]); a_trajpoly7_c1(&c7, hb[1]); a_trajpoly7_c2(&c7, hb[2]); a_trajpoly7_c3(&c7, hb[3]);
+        }
+        VP_CHECK(cx, memcmp(wc, cc, sizeof(double) * n) == 0, "traj:member_gen_differs", "trajpoly%u: the C++ member gen() and a_trajpoly%u_gen() give different coefficients for the same arguments", 2 * m - 1, 2 * m - 1);
+        VP_CHECK(cx, memcmp(g, h, sizeof(g)) == 0, "traj:member_eval_differs", "trajpoly%u: member pos/vel/acc/jer differ from the C functions at x=%.17g", 2 * m - 1, xq);
+        VP_CHECK(cx, memcmp(gb, hb, sizeof(gb)) == 0, "traj:member_accessor_differs", "trajpoly%u: member c0..c3 differ from the C functions", 2 * m - 1);
+    }
     for (unsigned i = 0; i < n; ++i)
     {
         if (!std::isfinite(cc[i]))
